@@ -5,7 +5,7 @@
 //! `_event.data` of everything they receive through a custom action.  Three kinds of cases:
 //!
 //! * `post`: a hand-written HTTP request over `TcpStream` (names / values needing encoding, odd
-//!   but legal encodings, duplicate and structural field names, valid / unknown / malformed session
+//!   but legal encodings, duplicate and structural-looking field names, valid / unknown / malformed session
 //!   segments, missing event name, `_content`), posted from several threads at once.  Status and
 //!   the events that arrived (which session, name, data) are compared with `receive` of the Lean
 //!   model, and the property predicate (`oracle`) is evaluated on the implementation's output.
@@ -400,7 +400,9 @@ fn oracle_fail_capped(rep: &mut Report, sig: &str, v: Value) {
     }
 }
 
-/// how rocket will read the field names of this body (for narrow finding signatures)
+/// what the field names of this body look like (part of the failure signature).  Before the repair of
+/// finding C20-F1 rocket read the names as form paths and the classes other than `plain` were the known
+/// finding; now a failure of ANY class is a violation.
 fn name_class(fields: &[(Vec<u8>, Vec<u8>)]) -> &'static str {
     let mut class = "plain";
     for (n, _) in fields {
@@ -644,22 +646,23 @@ fn post_corpus(sids: &[u32]) -> Vec<PostCase> {
         mk("-1", "_scxmleventname=ev", "negative segment"),
         mk(&format!("+{}", s0), "_scxmleventname=plus", "u32::from_str accepts a leading +"),
         mk(&format!("000{}", s0), "_scxmleventname=zeros", "leading zeros"),
-        mk(&s0, "_scxmleventname=first&_scxmleventname=second", "duplicate name: first wins (HashMap form)"),
-        mk(&s0, "_scxmleventname=ev&p=1&p=2", "duplicate param: first wins"),
-        mk(&s0, "_scxmleventname=ev&_content=a&_content=b", "duplicate content"),
-        // rocket reads field names structurally (witnesses of the Lean counterexample theorems)
-        mk(&s0, "_scxmleventname=ev&x:y=1", "FINDING colon in a param name: whole form rejected"),
-        mk(&s0, "_scxmleventname=ev&a.b=1", "FINDING dot in a param name: key truncated"),
-        mk(&s0, "_scxmleventname=ev&a[b]=1", "FINDING bracket in a param name: key truncated"),
-        mk(&s0, "_scxmleventname=ev&[a]=1", "bracketed name"),
-        mk(&s0, "_scxmleventname=ev&=1", "FINDING empty param name: whole form rejected"),
-        mk(&s0, "_scxmleventname=ev&%3Dx=1", "name starting with ="),
-        mk(&s0, "_scxmleventname=ev&a.b=1&a.c=2", "two names with the same first key"),
-        mk(&s0, "_scxmleventname=ev&k:q=key&v:q=val", "k:/v: addressing"),
-        mk(&s0, "_scxmleventname=ev&v:q=val", "value without key"),
-        mk(&s0, "_scxmleventname=ev&k:1=same&v:1=a&k:2=same&v:2=b", "two entries finalising to the same key"),
-        mk(&s0, "k:n=_scxmleventname&v:n=sneaky", "event name smuggled in through k:/v:"),
-        mk(&s0, "_scxmleventname.x=ev", "name key with a suffix is read as the name"),
+        mk(&s0, "_scxmleventname=first&_scxmleventname=second", "duplicate name: the later one replaces the earlier (the route's loop)"),
+        mk(&s0, "_scxmleventname=ev&p=1&p=2", "duplicate param: both pushed, the later value is the one in _event.data"),
+        mk(&s0, "_scxmleventname=ev&_content=a&_content=b", "duplicate content: the later one replaces the earlier"),
+        // REGRESSION cases of the repaired finding C20-F1: rocket read field names structurally (form =
+        // HashMap<String,String>); now names are verbatim (Lean: C20_regression_*).  A failure here is a VIOLATION.
+        mk(&s0, "_scxmleventname=ev&x:y=1", "REGRESSION C20-F1 colon in a param name (was: whole form rejected, 422)"),
+        mk(&s0, "_scxmleventname=ev&a.b=1", "REGRESSION C20-F1 dot in a param name (was: key truncated to a)"),
+        mk(&s0, "_scxmleventname=ev&a[b]=1", "REGRESSION C20-F1 bracket in a param name (was: key truncated to a)"),
+        mk(&s0, "_scxmleventname=ev&[a]=1", "REGRESSION C20-F1 bracketed name (was: key a)"),
+        mk(&s0, "_scxmleventname=ev&=1", "REGRESSION C20-F1 empty param name (was: whole form rejected, 422)"),
+        mk(&s0, "_scxmleventname=ev&%3Dx=1", "REGRESSION C20-F1 name starting with = (was: 422)"),
+        mk(&s0, "_scxmleventname=ev&a.b=1&a.c=2", "REGRESSION C20-F1 two names with the same first key (was: one entry a)"),
+        mk(&s0, "_scxmleventname=ev&k:q=key&v:q=val", "REGRESSION C20-F1 k:/v: are ordinary names (was: entry key=val)"),
+        mk(&s0, "_scxmleventname=ev&v:q=val", "REGRESSION C20-F1 v:q alone is an ordinary param (was: 422)"),
+        mk(&s0, "_scxmleventname=ev&k:1=same&v:1=a&k:2=same&v:2=b", "REGRESSION C20-F1 four ordinary params (was: one entry same=b)"),
+        mk(&s0, "k:n=_scxmleventname&v:n=sneaky", "REGRESSION C20-F1 no event name here: 400 (was: event sneaky delivered)"),
+        mk(&s0, "_scxmleventname.x=ev", "REGRESSION C20-F1 _scxmleventname.x is a param, no event name: 400 (was: event ev)"),
         mk(&s0, "_scxmleventname=ev&v=%ff%fe", "invalid UTF-8 in a value is replaced"),
         PostCase { seg: s0.clone(), body: b"_scxmleventname=ev&v=\xff\xfe".to_vec(), kind: "corpus raw bytes that are not UTF-8".into(), tag: None },
         mk("%31", "_scxmleventname=ev", "percent-encoded segment (may or may not be a live id)"),
@@ -1169,7 +1172,7 @@ fn send_corpus() -> Vec<SendCase> {
             ("d".into(), DV::Double(1.5)), ("m".into(), DV::Map1("k".into(), Box::new(DV::Int(1))))]), content: None },
         SendCase { name: "dup".into(), params: Some(vec![("p".into(), DV::Int(1)), ("p".into(), DV::Int(2))]), content: None },
         SendCase { name: "reserved".into(), params: Some(vec![(EVENT_NAME.into(), s("hijack")), (CONTENT.into(), s("c"))]), content: None },
-        // param names that rocket reads structurally (witnesses of the Lean counterexamples)
+        // REGRESSION C20-F1: param names that rocket used to read structurally (event lost / key truncated)
         SendCase { name: "colon".into(), params: Some(vec![("x:y".into(), DV::Int(1))]), content: None },
         SendCase { name: "dot".into(), params: Some(vec![("a.b".into(), DV::Int(1))]), content: None },
         SendCase { name: "both".into(), params: Some(vec![]), content: Some(s("with empty params")) },
@@ -1382,6 +1385,7 @@ fn e2e_corpus() -> Vec<E2eCase> {
         mk(SendCase { name: "e.v".into(), params: Some(vec![("k 1".into(), s("a b+c&d=e%f")), ("é".into(), s("日本 😀"))]), content: None }, true, false, false, 0),
         mk(SendCase { name: "with space & more".into(), params: None, content: Some(s("some content = 100%")) }, true, true, true, 0),
         mk(SendCase { name: "t".into(), params: Some(vec![("i".into(), DV::Int(-5)), ("b".into(), DV::Bool(false)), ("n".into(), DV::Null), ("d".into(), DV::Double(1.5))]), content: None }, false, false, false, 0),
+        // REGRESSION C20-F1: <param name="x:y"> was lost on the way (422, ignored by send), "a.b" arrived as "a"
         mk(SendCase { name: "colon".into(), params: Some(vec![("x:y".into(), DV::Int(1))]), content: None }, true, false, false, 0),
         mk(SendCase { name: "dot".into(), params: Some(vec![("a.b".into(), DV::Int(1))]), content: None }, true, false, false, 0),
     ]
